@@ -211,3 +211,31 @@ def person_edits_untracked_file_with_pending_ai_lines_across_a_commit():
         return s.kinds()
     finally:
         s.destroy()
+
+
+def checkout_head_dash_dash_dot_discards_initial_only_claims():
+    """D94 (fixed): an agent's two lines at the top of f.txt are pending only as INITIAL claims (a commit of another file came in
+    between); `git checkout HEAD -- .` discards them; a person types three lines there; commit => the person's lines 1-2 were the
+    session's: the path form of checkout removed pending attributions only for pathspecs that are literal file or directory names
+    (table cells initial|checkout-head-dd-dot|* and initial-staged|checkout-head-dd-dot|*)."""
+    from ..props import c03_matrix as M
+    kinds, detail = set(), []
+    for cell in ("initial|checkout-head-dd-dot|person", "initial-staged|checkout-head-dd-dot|person-unreported"):
+        r = M.run_cell(dict(cell=cell))
+        for v in r.get("viol", []):
+            kinds.add("%s@%s" % (v["kind"], cell)); detail.append(dict(v))
+    return sorted(kinds), detail[:4]
+
+
+def git_rm_then_recreate_discards_initial_only_claims():
+    """D95 (fixed): an agent's two lines at the top of f.txt are pending only as INITIAL claims; `git rm -f f.txt`; a person re-creates
+    the file with the committed text and types three lines at the top (reported by an IDE-style checkpoint); commit => the person's
+    lines 1-2 were the session's: `git rm` was not handled and the stale line-number claims survived the file's removal (table cells
+    initial|rm-f-readd|* and initial-staged|rm-f-readd|*)."""
+    from ..props import c03_matrix as M
+    kinds, detail = set(), []
+    for cell in ("initial|rm-f-readd|person", "initial-staged|rm-f-readd|other-session"):
+        r = M.run_cell(dict(cell=cell))
+        for v in r.get("viol", []):
+            kinds.add("%s@%s" % (v["kind"], cell)); detail.append(dict(v))
+    return sorted(kinds), detail[:4]
